@@ -267,6 +267,8 @@ impl DrawExecutor {
     }*/
 
     fn set_pixel(&mut self, x: i32, y: i32, line_color: u8) {
+        #[cfg(icy_engine_verif)]
+        crate::verif_hooks::tick(1);
         let offset = (y * self.get_resolution().width + x) as usize;
         if offset >= self.screen.len() {
             return;
